@@ -28,6 +28,27 @@ CHECKS = {
     "C12": dict(engine="asmdump+asmcmp", cat="exploration", tech="runtime comparison of the assembled listing with the emitted machine code through a common disassembler",
                 text="listing assembled with GNU as and machine code both disassembled with objdump and compared instruction by instruction (nop padding dropped, branch targets as instruction ordinals) for generated programs x targets x 64/32-bit x jumps x frame pointer x feature subsets",
                 note="no ARM/MIPS cross assembler is installed, so the NEON/MIPS sub-claim is not decided (the statement makes it conditional on one being installed)"),
+    "C05": dict(engine="api", cat="exploration", tech="ASan/UBSan-instrumented execution of the compiler on generated valid, invalid and over-limit programs for all targets, with a result-classification monitor and a watchdog",
+                text="about 150k (quick) compiles of valid, mutated and over-limit programs for all eight registered targets and several flag sets under address/UB sanitizers; after every compile the harness checks the three-way result contract and emulates non-fatal programs",
+                note="sanitizers see only heap/stack/global red-zone and array-subscript violations; bounded time is restated as a 240 s per-case watchdog"),
+    "C13": dict(engine="api", cat="exploration", tech="runtime round-trip monitoring (encode, decode, field comparison, re-encode, differential emulation)",
+                text="tens of thousands of generated programs incl. boundary encodings are serialised and reconstructed; all public fields, the second encoding and emulation results are compared; run with release and ASan builds",
+                note="names are not part of the format; constants compared on their declared width"),
+    "C14": dict(engine="api", cat="exploration", tech="sanitizer-instrumented fuzzing of the parser with structured mutations and directed faults plus an error-record oracle",
+                text="40k (quick) / 400k (thorough) texts of nine kinds parsed under ASan/UBSan; error line numbers, reporting of injected faults at their line, compile and free of every returned program are checked",
+                note="generation based, no coverage feedback; C-string inputs only"),
+    "C15": dict(engine="api", cat="exploration", tech="runtime equivalence monitoring: independent printer -> parser vs construction API (structure, bytecode)",
+                text="each generated program is rendered three ways (formatting noise, CRLF, literal spellings) and every parse must be error free and equal to the API-built program",
+                note="printer covers integer/hex literal spellings; programs writing a destination twice are outside the text format"),
+    "C16": dict(engine="api", cat="exploration", tech="ASan + LeakSanitizer over random legal lifecycle sequences driven by an ownership model, with heap-growth measurement",
+                text="80k random legal lifecycle sequences under ASan, repeated under LeakSanitizer in three environments, plus a K/4K iteration heap growth comparison",
+                note="legality model is the harness'; only leaks reachable at exit or growth visible in mallinfo2 are seen"),
+    "C17": dict(engine="api", cat="exploration", tech="runtime comparison of repeated compilations across histories, code placements, reset and processes/debug levels",
+                text="every program compiled twice with different code-memory history and placement, after reset, and in fresh processes under three debug levels; bytes, listing and result compared for all eight targets",
+                note="names fixed by the harness; run repeatability is observed under C01"),
+    "C20": dict(engine="api", cat="exploration", tech="runtime monitoring of extension registration scenarios (call counters, rule identity log, before/after snapshots) in fresh processes",
+                text="32 (quick) / 96 (thorough) registration scenarios x 2 builds, each in its own process: extension opcodes emulated and natively compiled against their own reference, rule precedence logged, built-in programs compared before/after",
+                note="rules registered for sse only"),
 }
 
 PENDING = ["C04", "C05", "C06", "C07", "C08", "C09", "C11", "C12", "C13", "C14", "C15", "C16", "C17", "C19", "C20"]
@@ -37,6 +58,8 @@ ENGINES = [
      "kind_free_text": "differential execution harness: generated programs run natively through a state-checking trampoline on guard-page arrays, through the emulator and through an independent reference interpreter"},
     {"name": "emu", "path": "harness/emu.c", "serves_properties": ["C02"],
      "kind_free_text": "operand-value sweeps of the emulator against harness/ref.c"},
+    {"name": "api", "path": "harness/api.c", "serves_properties": ["C05", "C13", "C14", "C15", "C16", "C17", "C20"],
+     "kind_free_text": "API-level monitors (compile totality, bytecode round trip, parser fuzzing, text/API equivalence, lifecycle, determinism, extension opcodes), built with ASan/UBSan or plain"},
     {"name": "asmdump+asmcmp", "path": "harness/asmdump.c", "serves_properties": ["C11", "C12"],
      "kind_free_text": "dumps listing and machine code of compiled programs; vlib/asmcmp.py compares them through GNU as/objdump and classifies instructions against ISA subsets"},
 ]
